@@ -123,6 +123,13 @@ class Ctx:
                 self.configs_used.append(config)
         return self._crates[k]
 
+    def effects(self, config, crate=None):
+        import effects as _e
+        k = ("eff", config, crate)
+        if k not in self._crates:
+            self._crates[k] = _e.Effects(self.crate(config, crate))
+        return self._crates[k]
+
     def rule(self, rid, title, floor=None, config=None):
         r = Rule(self, rid, title, floor, config)
         self.rules.append(r)
